@@ -49,8 +49,18 @@ use lightning_signer::util::test_utils::{
 };
 use lightning_signer::wallet::Wallet;
 use lightning_signer::SendSync;
+use lightning_signer::bitcoin::bip32::Fingerprint;
+use lightning_signer::bitcoin::psbt::Psbt;
+use lightning_signer::bitcoin::secp256k1::XOnlyPublicKey;
+use lightning_signer::channel::CommitmentType;
 use serde_json::{json, Value};
 use vharness::*;
+use vls_protocol::model::{Basepoints, PubKey};
+use vls_protocol::msgs::{self, Message as WireMessage, SerBolt};
+use vls_protocol::psbt::PsbtWrapper;
+use vls_protocol::serde_bolt::{ArrayBE, Octets, WithSize};
+use vls_protocol_signer::handler::{ChannelHandler, Error as HandlerError, Handler};
+use vls_protocol_signer::util::commitment_type_to_channel_type;
 
 const CP_SEED: [u8; 32] = [3u8; 32]; // commitment seed of make_test_counterparty_keys
 const INITIAL: u64 = (1 << 48) - 1;
@@ -506,6 +516,14 @@ struct Sys {
     drive_log: Vec<Value>,
     hash_ctr: u8,
     dead: bool, // a commitment update panicked: the channel lock is poisoned
+    proto: u32,
+    peer: [u8; 33],
+    handler: ChannelHandler,
+    setup_route: &'static str,
+}
+
+fn channel_handler(node: &Arc<Node>, proto: u32, peer: [u8; 33], dbid: u64) -> ChannelHandler {
+    make_root_handler(node, proto).for_new_client(1, PubKey(peer), dbid)
 }
 
 fn services(pol: &Pol, flaky: &Arc<Flaky>, clock: &Arc<lightning_signer::util::clock::ManualClock>) -> NodeServices {
@@ -521,7 +539,7 @@ fn cp_secret(n: u64) -> [u8; 32] {
 }
 
 impl Sys {
-    fn new(case: usize, pol: Pol) -> Sys {
+    fn new(case: usize, pol: Pol, proto: u32) -> Sys {
         let mut seed = [0u8; 32];
         seed[0] = (case % 251) as u8;
         seed[1] = 0xc7;
@@ -538,7 +556,12 @@ impl Sys {
         let peer = [2u8; 33];
         let (channel_id, _) = node.new_channel(1, &peer, &node).expect("new_channel");
         let uni = Universe::new(&node, &secp);
+        let handler = channel_handler(&node, proto, peer, 1);
         Sys {
+            proto,
+            peer,
+            handler,
+            setup_route: "direct",
             pol,
             seed,
             config,
@@ -579,12 +602,106 @@ impl Sys {
         ok
     }
 
+    /// the same set-up as a SetupChannel message through the protocol handler.  `setup` is the independent
+    /// statement of what the message must become: channel_value is satoshi, push_value is millisatoshi,
+    /// (funding_txid, funding_txout) is the funding outpoint, to_self_delay is the delay the HOLDER selected (imposed on
+    /// the counterparty's outputs), remote_to_self_delay the one the counterparty selected, an empty
+    /// local_shutdown_script means "no upfront script", local_shutdown_wallet_index is the wallet path of that script,
+    /// the remote basepoints / funding key are the counterparty's.
+    fn setup_channel_wire(&mut self, setup: ChannelSetup, wallet_index: Option<u32>, rng: &mut Rng) -> (bool, Value) {
+        let pts = &setup.counterparty_points;
+        let remote_script: Vec<u8> =
+            if rng.chance(1, 2) { vec![] } else { self.uni.by_kind(|k| *k == Kind::Counterparty)[0].script.to_bytes() };
+        let m = msgs::SetupChannel {
+            is_outbound: setup.is_outbound,
+            channel_value: setup.channel_value_sat,
+            push_value: setup.push_value_msat,
+            funding_txid: setup.funding_outpoint.txid,
+            funding_txout: setup.funding_outpoint.vout as u16,
+            to_self_delay: setup.holder_selected_contest_delay,
+            local_shutdown_script: Octets(setup.holder_shutdown_script.as_ref().map(|x| x.to_bytes()).unwrap_or_default()),
+            local_shutdown_wallet_index: wallet_index,
+            remote_basepoints: Basepoints {
+                revocation: PubKey(pts.revocation_basepoint.0.serialize()),
+                payment: PubKey(pts.payment_point.serialize()),
+                htlc: PubKey(pts.htlc_basepoint.0.serialize()),
+                delayed_payment: PubKey(pts.delayed_payment_basepoint.0.serialize()),
+            },
+            remote_funding_pubkey: PubKey(pts.funding_pubkey.serialize()),
+            remote_to_self_delay: setup.counterparty_selected_contest_delay,
+            remote_shutdown_script: Octets(remote_script.clone()),
+            channel_type: Octets(commitment_type_to_channel_type(CommitmentType::StaticRemoteKey)),
+        };
+        let bytes = m.as_vec();
+        let msg = msgs::from_vec(bytes).expect("SetupChannel survives the wire");
+        let r = catch_unwind(AssertUnwindSafe(|| self.handler.handle(msg)));
+        let ok = matches!(r, Ok(Ok(_)));
+        let mut mapping: Vec<String> = vec![];
+        let mut monitor: Vec<String> = vec![];
+        if ok {
+            // what the channel now holds against what the message said
+            let actual = self.node.with_channel(&self.channel_id, |c| Ok(c.setup.clone())).expect("ready");
+            if actual.is_outbound != setup.is_outbound {
+                mapping.push("is_outbound".into());
+            }
+            if actual.channel_value_sat != setup.channel_value_sat {
+                mapping.push(format!("channel_value: {} sat on the wire, {} in the channel", setup.channel_value_sat, actual.channel_value_sat));
+            }
+            if actual.push_value_msat != setup.push_value_msat {
+                mapping.push(format!("push_value: {} msat on the wire, {} in the channel", setup.push_value_msat, actual.push_value_msat));
+            }
+            if actual.funding_outpoint != setup.funding_outpoint {
+                mapping.push("funding outpoint".into());
+            }
+            if actual.holder_shutdown_script != setup.holder_shutdown_script {
+                mapping.push("local_shutdown_script".into());
+            }
+            if actual.holder_selected_contest_delay != setup.holder_selected_contest_delay
+                || actual.counterparty_selected_contest_delay != setup.counterparty_selected_contest_delay
+            {
+                mapping.push("contest delays".into());
+            }
+            if actual.counterparty_points.funding_pubkey != pts.funding_pubkey {
+                mapping.push("remote_funding_pubkey".into());
+            }
+            let want_remote = if remote_script.is_empty() { None } else { Some(ScriptBuf::from(remote_script.clone())) };
+            if actual.counterparty_shutdown_script != want_remote {
+                mapping.push("remote_shutdown_script".into());
+            }
+            // the upfront clause: a fixed shutdown script is wallet-derivable under the given index or allowlisted
+            if let Some(up) = &setup.holder_shutdown_script {
+                let p: Vec<u32> = wallet_index.map(|i| vec![i]).unwrap_or_default();
+                if !self.uni.owned(up, &p) && !ref_warned(&self.pol.rules, "policy-mutual-destination-allowlisted") {
+                    monitor.push("SetupChannel fixed an upfront shutdown script that is neither wallet-derivable under local_shutdown_wallet_index nor allowlisted".into());
+                }
+            }
+            let nctx = self.nctx();
+            let keys = make_test_counterparty_keys(&nctx, &self.channel_id, setup.channel_value_sat);
+            self.cctx = Some(TestChannelContext { channel_id: self.channel_id.clone(), setup: setup.clone(), counterparty_keys: keys });
+            self.setup = setup.clone();
+            self.setup_route = "wire";
+        }
+        let rec = json!({
+            "kind": "setup-wire", "protocol": self.proto, "accepted": ok, "panic": r.is_err(),
+            "message": {"is_outbound": setup.is_outbound, "channel_value": setup.channel_value_sat, "push_value": setup.push_value_msat,
+                        "funding_txid": hex::encode(setup.funding_outpoint.txid.to_byte_array()), "funding_txout": setup.funding_outpoint.vout,
+                        "to_self_delay": setup.holder_selected_contest_delay, "remote_to_self_delay": setup.counterparty_selected_contest_delay,
+                        "local_shutdown_script": setup.holder_shutdown_script.as_ref().map(|x| hex::encode(x.as_bytes())),
+                        "local_shutdown_wallet_index": wallet_index, "remote_shutdown_script": hex::encode(&remote_script)},
+            "allowlisted_scripts": self.uni.allow.iter().map(hex::encode).collect::<Vec<_>>(),
+            "filter_rules": self.pol.rules,
+            "mapping_violation": mapping, "monitor_violation": monitor,
+        });
+        (ok, rec)
+    }
+
     /// a signer restart: a second Node built from the store alone
     fn restart(&mut self) {
         let nodes = self.flaky.get_nodes().expect("get_nodes");
         for (id, entry) in nodes {
             if id == self.node_id {
                 self.node = Node::restore_node(&id, entry, &self.seed, services(&self.pol, &self.flaky, &self.clock)).expect("restore");
+                self.handler = channel_handler(&self.node, self.proto, self.peer, 1);
                 return;
             }
         }
@@ -982,7 +1099,7 @@ fn gen_request(sys: &Sys, rng: &mut Rng, shutdown_path: &[u32], allow_panic: boo
                 paths.swap(0, 1);
                 label.push_str(":outputs-swapped");
             }
-            2 | 3 | 20 | 21 | 22 if tx.output.len() == 2 => {
+            2 | 3 | 20..=27 if tx.output.len() == 2 => {
                 paths.swap(0, 1);
                 label.push_str(":paths-swapped");
             }
@@ -1155,9 +1272,114 @@ fn json_tx(t: &Transaction) -> Value {
            "outputs": t.output.iter().map(|o| json!({"value_sat": o.value.to_sat(), "script": hex::encode(o.script_pubkey.as_bytes())})).collect::<Vec<_>>()})
 }
 
-fn exec(sys: &mut Sys, plan: &Plan, fail_store: bool, id: &str) -> Outcome {
+/// One close request as a protocol message.  The second component is the independent statement of what the
+/// message must become at the core call:
+///   SignMutualCloseTx2: to_local_value_sat / to_remote_value_sat are the holder's / the counterparty's value in
+///     satoshi; local_script / remote_script the holder's / the counterparty's script, empty = none;
+///     local_wallet_path_hint the wallet path of the holder's script, index by index;
+///   SignMutualCloseTx: `tx` is the transaction to validate and sign (not the PSBT's own unsigned transaction); the
+///     wallet path of output i is the path of the single bip32_derivation entry of PSBT output i, else of its single
+///     tap_key_origins entry, else empty; remote_funding_key, redeem / witness scripts and everything else in the
+///     PSBT have no influence.
+/// None: the request cannot be expressed on the wire (a transaction without inputs does not survive the encoding).
+fn to_wire(sys: &Sys, req: &Req, rng: &mut Rng) -> Option<(Vec<u8>, Req, Value)> {
+    match req {
+        Req::P2 { vh, vc, sh, sc, path } => {
+            let m = msgs::SignMutualCloseTx2 {
+                to_local_value_sat: *vh,
+                to_remote_value_sat: *vc,
+                local_script: Octets(sh.as_ref().map(|x| x.to_bytes()).unwrap_or_default()),
+                remote_script: Octets(sc.as_ref().map(|x| x.to_bytes()).unwrap_or_default()),
+                local_wallet_path_hint: ArrayBE(path.clone()),
+            };
+            let ne = |o: &Option<ScriptBuf>| o.clone().filter(|x| !x.is_empty());
+            let eff = Req::P2 { vh: *vh, vc: *vc, sh: ne(sh), sc: ne(sc), path: path.clone() };
+            let j = json!({"message": "SignMutualCloseTx2", "to_local_value_sat": vh, "to_remote_value_sat": vc,
+                           "local_script": sh.as_ref().map(|x| hex::encode(x.as_bytes())).unwrap_or_default(),
+                           "remote_script": sc.as_ref().map(|x| hex::encode(x.as_bytes())).unwrap_or_default(),
+                           "local_wallet_path_hint": path});
+            Some((m.as_vec(), eff, j))
+        }
+        Req::P1 { tx, paths } => {
+            if tx.input.is_empty() {
+                return None;
+            }
+            // the PSBT's own transaction: unsigned, one output per path (so it need not be the transaction to sign)
+            let mut base = tx.clone();
+            for i in base.input.iter_mut() {
+                i.script_sig = ScriptBuf::new();
+                i.witness = Witness::new();
+            }
+            let filler = TxOut { value: Amount::from_sat(rng.below(5000)), script_pubkey: ScriptBuf::from(vec![0x51u8]) };
+            base.output.resize(paths.len(), filler);
+            if rng.chance(1, 6) {
+                // values the handler must not read
+                for o in base.output.iter_mut() {
+                    o.value = Amount::from_sat(o.value.to_sat() ^ 0x55);
+                }
+                base.lock_time = LockTime::from_consensus(7);
+            }
+            let mut psbt = Psbt::from_unsigned_tx(base).ok()?;
+            let mut styles: Vec<&str> = vec![];
+            for (i, p) in paths.iter().enumerate() {
+                let fp = Fingerprint::from([rng.below(256) as u8, 1, 2, 3]);
+                let key = make_test_pubkey(60 + (rng.below(8) as u8));
+                let style = if p.is_empty() && rng.chance(1, 2) {
+                    "none"
+                } else if rng.chance(1, 5) {
+                    "tap_key_origins"
+                } else {
+                    "bip32_derivation"
+                };
+                match style {
+                    "tap_key_origins" => {
+                        let x: XOnlyPublicKey = key.x_only_public_key().0;
+                        psbt.outputs[i].tap_key_origins.insert(x, (vec![], (fp, dpath(p))));
+                    }
+                    "bip32_derivation" => {
+                        psbt.outputs[i].bip32_derivation.insert(key, (fp, dpath(p)));
+                        if rng.chance(1, 8) {
+                            // a taproot origin with another path next to it: the bip32 entry wins
+                            let x: XOnlyPublicKey = make_test_pubkey(59).x_only_public_key().0;
+                            psbt.outputs[i].tap_key_origins.insert(x, (vec![], (fp, dpath(&[9, 9]))));
+                        }
+                    }
+                    _ => {}
+                }
+                if rng.chance(1, 6) {
+                    psbt.outputs[i].witness_script = Some(ScriptBuf::from(vec![0x52u8, 0x53]));
+                    psbt.outputs[i].redeem_script = Some(ScriptBuf::from(vec![0x54u8]));
+                }
+                styles.push(style);
+            }
+            let real = sys.setup.counterparty_points.funding_pubkey;
+            let rfk = if rng.chance(1, 2) { real } else { make_test_pubkey(77) };
+            let m = msgs::SignMutualCloseTx {
+                tx: WithSize(tx.clone()),
+                psbt: WithSize(PsbtWrapper { inner: psbt }),
+                remote_funding_key: PubKey(rfk.serialize()),
+            };
+            let bytes = m.as_vec();
+            // only requests that survive the encoding are sent
+            match msgs::from_vec(bytes.clone()) {
+                Ok(WireMessage::SignMutualCloseTx(d)) if d.tx.0 == *tx && d.psbt.0.inner.outputs.len() == paths.len() => {}
+                _ => return None,
+            }
+            let j = json!({"message": "SignMutualCloseTx", "tx": json_tx(tx), "psbt_output_origin": styles, "psbt_output_paths": paths,
+                           "remote_funding_key_is_the_channels": rfk == real});
+            Some((bytes, Req::P1 { tx: tx.clone(), paths: paths.clone() }, j))
+        }
+    }
+}
+
+fn exec(sys: &mut Sys, plan: &Plan, fail_store: bool, id: &str, wire: Option<(Vec<u8>, Req, Value)>) -> Outcome {
     let node = sys.node.clone();
     let cid = sys.channel_id.clone();
+    // the request as the core must see it: the plan's, or what the wire message stands for
+    let req: Req = match &wire {
+        Some((_, eff, _)) => eff.clone(),
+        None => plan.req.clone(),
+    };
     let before_mem = sys.mem();
     let before_disk = sys.disk();
     let (mem0, disk0) = match (before_mem, before_disk) {
@@ -1169,7 +1391,7 @@ fn exec(sys: &mut Sys, plan: &Plan, fail_store: bool, id: &str) -> Outcome {
         && mem0.cp == sys.ledger_cp.map(|c| Info { to_broadcaster: c.to_c, to_countersigner: c.to_h, n_offered: c.n_offered, n_received: c.n_received });
     // oracle answers of the real wallet for the (path, script) pairs of the request
     let mut pairs: Vec<(Vec<u32>, ScriptBuf)> = vec![];
-    match &plan.req {
+    match &req {
         Req::P2 { sh, path, .. } => {
             if let Some(s) = sh {
                 pairs.push((path.clone(), s.clone()));
@@ -1201,7 +1423,7 @@ fn exec(sys: &mut Sys, plan: &Plan, fail_store: bool, id: &str) -> Outcome {
         .with_channel(&cid, |c| Ok((c.setup.clone(), c.enforcement_state.clone(), c.validator())))
         .expect("channel");
     let wallet: &dyn Wallet = &*node;
-    let (vcode, chosen): (u64, Option<(u64, u64, ScriptBuf, ScriptBuf)>) = match &plan.req {
+    let (vcode, chosen): (u64, Option<(u64, u64, ScriptBuf, ScriptBuf)>) = match &req {
         Req::P2 { vh, vc, sh, sc, path } => {
             let r = catch_unwind(AssertUnwindSafe(|| {
                 validator.validate_mutual_close_tx(wallet, &setup_c, &estate_c, *vh, *vc, sh, sc, &dpath(path))
@@ -1227,21 +1449,56 @@ fn exec(sys: &mut Sys, plan: &Plan, fail_store: bool, id: &str) -> Outcome {
     };
     // channel level
     sys.flaky.fail_update_channel.store(fail_store, Ordering::SeqCst);
-    let r: std::thread::Result<Result<Signature, Status>> = catch_unwind(AssertUnwindSafe(|| {
-        node.with_channel(&cid, |c| match &plan.req {
-            Req::P2 { vh, vc, sh, sc, path } => c.sign_mutual_close_tx_phase2(*vh, *vc, sh, sc, &dpath(path)),
-            Req::P1 { tx, paths } => {
-                let dp: Vec<DerivationPath> = paths.iter().map(|p| dpath(p)).collect();
-                c.sign_mutual_close_tx(tx, &dp)
+    let mut wire_notes: Vec<String> = vec![];
+    let (ccode, sig, status): (u64, Option<Signature>, String) = match &wire {
+        None => {
+            let r: std::thread::Result<Result<Signature, Status>> = catch_unwind(AssertUnwindSafe(|| {
+                node.with_channel(&cid, |c| match &req {
+                    Req::P2 { vh, vc, sh, sc, path } => c.sign_mutual_close_tx_phase2(*vh, *vc, sh, sc, &dpath(path)),
+                    Req::P1 { tx, paths } => {
+                        let dp: Vec<DerivationPath> = paths.iter().map(|p| dpath(p)).collect();
+                        c.sign_mutual_close_tx(tx, &dp)
+                    }
+                })
+            }));
+            match &r {
+                Err(_) => (1, None, "panic".into()),
+                Ok(Ok(s)) => (0, Some(*s), String::new()),
+                Ok(Err(e)) => (status_code(e), None, format!("{:?}", e.code())),
             }
-        })
-    }));
-    sys.flaky.fail_update_channel.store(false, Ordering::SeqCst);
-    let (ccode, sig, status): (u64, Option<Signature>, String) = match &r {
-        Err(_) => (1, None, "panic".into()),
-        Ok(Ok(s)) => (0, Some(*s), String::new()),
-        Ok(Err(e)) => (status_code(e), None, format!("{:?}", e.code())),
+        }
+        Some((bytes, _, _)) => {
+            // encoded with as_vec, decoded with from_vec, handled by the channel's protocol handler
+            let msg = msgs::from_vec(bytes.clone()).expect("request survives the wire");
+            let handler = &sys.handler;
+            let r = catch_unwind(AssertUnwindSafe(|| handler.handle(msg)));
+            match r {
+                Err(_) => (1, None, "panic".into()),
+                Ok(Ok(reply)) => match msgs::from_vec(reply.as_vec()) {
+                    Ok(WireMessage::SignTxReply(rep)) => {
+                        if rep.signature.sighash != EcdsaSighashType::All as u8 {
+                            wire_notes.push(format!("reply carries sighash type {}", rep.signature.sighash));
+                        }
+                        match Signature::from_compact(&rep.signature.signature.0) {
+                            Ok(sg) => (0, Some(sg), String::new()),
+                            Err(_) => {
+                                wire_notes.push("reply does not carry a valid compact signature".into());
+                                (9, None, "bad signature encoding".into())
+                            }
+                        }
+                    }
+                    _ => {
+                        wire_notes.push("reply is not a SignTxReply".into());
+                        (9, None, "unexpected reply".into())
+                    }
+                },
+                Ok(Err(HandlerError::Signing(st))) => (status_code(&st), None, format!("{:?}", st.code())),
+                Ok(Err(HandlerError::Temporary(st))) => (9, None, format!("temporary {:?}", st.code())),
+                Ok(Err(HandlerError::Protocol(e))) => (8, None, format!("protocol {:?}", e)),
+            }
+        }
     };
+    sys.flaky.fail_update_channel.store(false, Ordering::SeqCst);
     let aborted = ccode == 1;
     let (mem1, disk1) = if aborted { (mem0, sys.disk().unwrap_or(disk0)) } else { (sys.mem().unwrap_or(mem0), sys.disk().unwrap_or(disk0)) };
 
@@ -1265,7 +1522,7 @@ fn exec(sys: &mut Sys, plan: &Plan, fail_store: bool, id: &str) -> Outcome {
         let redeem = funding_redeemscript(&hk, &ck);
         let cv = sys.setup.channel_value_sat;
         let empty = ScriptBuf::new();
-        match &plan.req {
+        match &req {
             Req::P2 { vh, vc, sh, sc, path } => {
                 let t = my_close(*vh, *vc, sh.as_ref().unwrap_or(&empty), sc.as_ref().unwrap_or(&empty), facts.funding);
                 if verifies(&sys.secp, &t, &redeem, cv, &hk, sig) {
@@ -1334,6 +1591,7 @@ fn exec(sys: &mut Sys, plan: &Plan, fail_store: bool, id: &str) -> Outcome {
             viol.push("signature returned although the store refused the write".into());
         }
     }
+    viol.extend(wire_notes.into_iter());
 
     // ---- Coq case
     let env = format!(
@@ -1355,7 +1613,7 @@ fn exec(sys: &mut Sys, plan: &Plan, fail_store: bool, id: &str) -> Outcome {
         coq_est(&mem0),
         coq_est(&disk0)
     );
-    let (phase, coq, req_json) = match &plan.req {
+    let (phase, coq, req_json) = match &req {
         Req::P2 { vh, vc, sh, sc, path } => {
             let args = format!("(mkArgs {} {} {} {} {})", vh, vc, coq_opt_script(sh), coq_opt_script(sc), coq_path(path));
             let obs = format!("({}, {}, {}, {}, {})", vcode, ccode, coq_opt_tx(&signed_tx), coq_est(&mem1), coq_est(&disk1));
@@ -1377,6 +1635,9 @@ fn exec(sys: &mut Sys, plan: &Plan, fail_store: bool, id: &str) -> Outcome {
     };
     let case = json!({
         "id": id, "phase": phase, "kind": plan.label, "intent": plan.intent,
+        "route": match &wire { None => "direct".to_string(), Some(_) => format!("wire-v{}", sys.proto) },
+        "wire": wire.as_ref().map(|w| w.2.clone()),
+        "channel_set_up_by": sys.setup_route,
         "policy": {"min_feerate_per_kw": sys.pol.min_feerate, "max_feerate_per_kw": sys.pol.max_feerate,
                    "epsilon_sat": sys.pol.epsilon, "filter_rules": sys.pol.rules},
         "setup": {"is_outbound": sys.setup.is_outbound, "channel_value_sat": sys.setup.channel_value_sat,
@@ -1429,7 +1690,8 @@ fn run(args: &Args) {
     let mut drive_stats: BTreeMap<String, u64> = Default::default();
     for case in 0..args.n {
         let pol = pick_policy(&mut rng);
-        let mut sys = Sys::new(case, pol.clone());
+        let proto = *rng.pick(&[4u32, 5, 6]);
+        let mut sys = Sys::new(case, pol.clone(), proto);
         // ---- allowlist before the channel exists (an upfront script may rely on it)
         let mut events: Vec<Value> = vec![];
         let foreign0 = sys.uni.scripts.iter().position(|s| s.kind == Kind::Foreign(0)).unwrap();
@@ -1452,18 +1714,41 @@ fn run(args: &Args) {
         let push_sat = if setup.is_outbound { *rng.pick(&[0u64, 0, cv / 3, cv / 2, 1000]) } else { 0 };
         setup.push_value_msat = push_sat * 1000;
         let mut shutdown_path: Vec<u32> = vec![];
+        // the funding outpoint differs from channel to channel (it is what the signature commits to)
+        let mut ft = [2u8; 32];
+        ft[0] = rng.below(256) as u8;
+        ft[31] = rng.below(256) as u8;
+        setup.funding_outpoint = OutPoint { txid: Txid::from_slice(&ft).unwrap(), vout: *rng.pick(&[0u32, 0, 1, 2, 65535]) };
         match rng.below(10) {
             0 | 1 => {
                 let w = sys.uni.by_kind(|k| *k == Kind::Wallet(7, "p2wpkh"))[0].script.clone();
                 setup.holder_shutdown_script = Some(w);
                 shutdown_path = vec![7];
             }
-            2 if sys.uni.allow.len() > 0 => {
+            2 | 3 if sys.uni.allow.len() > 0 => {
                 setup.holder_shutdown_script = Some(sys.uni.scripts[foreign0].script.clone());
+            }
+            4 => {
+                // somebody else's script, not allowlisted: must be refused
+                setup.holder_shutdown_script = Some(sys.uni.scripts[foreign2].script.clone());
             }
             _ => {}
         }
-        if !sys.setup_channel(setup.clone(), &shutdown_path) {
+        // half of the channels are set up by a SetupChannel message through the protocol handler
+        let mut setup_ok = false;
+        if rng.chance(1, 2) {
+            let idx = match (shutdown_path.first(), rng.below(6)) {
+                (Some(k), 0) => Some(*k ^ 6), // another index
+                (Some(k), _) => Some(*k),
+                (None, 0) => Some(1),
+                (None, _) => None,
+            };
+            let (ok, rec) = sys.setup_channel_wire(setup.clone(), idx, &mut rng);
+            *drive_stats.entry(format!("SetupChannel-message:{}", if ok { "accepted" } else { "refused" })).or_insert(0) += 1;
+            emit("SETUP", rec);
+            setup_ok = ok;
+        }
+        if !setup_ok && !sys.setup_channel(setup.clone(), &shutdown_path) {
             *drive_stats.entry("setup_channel-refused".into()).or_insert(0) += 1;
             continue;
         }
@@ -1584,7 +1869,8 @@ fn run(args: &Args) {
             let plan = gen_request(&sys, &mut rng, &shutdown_path, last);
             let fail_store = rng.chance(1, 14);
             let id = format!("{}.{}", case, q);
-            let mut out = exec(&mut sys, &plan, fail_store, &id);
+            let wire = if rng.chance(1, 2) { to_wire(&sys, &plan.req, &mut rng) } else { None };
+            let mut out = exec(&mut sys, &plan, fail_store, &id, wire);
             n_req += 1;
             let c = &mut out.case;
             c["history"] = json!({"commitment_updates": sys.drive_log, "events_before": events});
